@@ -59,8 +59,8 @@ enum { B_OK, B_DROP, B_SERVFAIL, B_REFUSED, B_NOTIMPL, B_NXDOMAIN, B_NODATA, B_T
 static const char *const beh_name[] = { "ok", "drop", "SERVFAIL", "REFUSED", "NOTIMPL", "NXDOMAIN", "NODATA", "TC", "TC+refuse-tcp",
        "garbage", "ok-twice", "late-ok", "silent-from-now", "REFUSED-from-now" };
 /* behaviours for a query received over TCP */
-enum { T_OK, T_DROP, T_CLOSE, T_PARTIAL, T_SPLIT, T_ZEROLEN, T_SERVFAIL, T_TC, T_NXDOMAIN, T_NTCP };
-static const char *const tbeh_name[] = { "ok", "drop", "close", "partial+close", "ok-in-two-segments", "zero-length-prefix", "SERVFAIL", "TC", "NXDOMAIN" };
+enum { T_OK, T_DROP, T_CLOSE, T_PARTIAL, T_SPLIT, T_ZEROLEN, T_SERVFAIL, T_TC, T_NXDOMAIN, T_SILENT, T_NTCP };
+static const char *const tbeh_name[] = { "ok", "drop", "close", "partial+close", "ok-in-two-segments", "zero-length-prefix", "SERVFAIL", "TC", "NXDOMAIN", "silent-from-now" };
 
 /* what happened to the queries of a request (explains result codes) */
 #define S_OK 1u
@@ -482,6 +482,7 @@ static void answer_tcp(struct dnse_msg *m)
 	len = build_reply(m, buf + 2, sizeof buf - 2, 0, 0, 1);
 	switch (beh) {
 	case T_OK: buf[0] = (uint8_t)(len >> 8); buf[1] = (uint8_t)len; dnse_tcp_write(m->ns, m->tcp, buf, len + 2); mark(r, S_OK); break;
+	case T_SILENT: ns_mode[m->ns] = B_SILENT; /* fall through */
 	case T_DROP: mark(r, S_NOANSWER); break;
 	case T_CLOSE: dnse_tcp_close(m->ns, m->tcp, 0); mark(r, S_NOANSWER); break;
 	case T_PARTIAL: {
